@@ -1,6 +1,6 @@
 //! C06 — printing and parsing are inverse; stored text and height are consistent at every node.
 
-use crate::formulas::{Alphabet, Gen, Hy, Names, ALL_BI, ALL_UN};
+use crate::formulas::{Alphabet, Bi, Gen, Hy, Names, Un, ALL_BI, ALL_UN};
 use crate::refparser::{self as rp, T};
 use crate::report::{guarded, Report, Violation};
 use crate::trees::{TreeAlphabet, TreeGen};
@@ -238,6 +238,48 @@ pub fn run(tier: &str) -> Result<Report, String> {
         rep.evaluations += n_rand;
         rep.set("random_constructor_trees_checked", json!(n_rand));
     }
+    // (iii-c) identifier shapes in every kind of position (proposition, state variable, wild-card, domain), built
+    //         with the constructors: leading / trailing / only underscores, digits first, operator and constant
+    //         look-alikes, non-ASCII letters and digits. A name is used in a position iff the reference grammar
+    //         reads the printed atom back as that very atom.
+    {
+        let names = [
+            "_p1", "__", "_", "_1", "p_", "a1", "1a", "9", "x_y_z", "EXa", "AXEL", "EFG", "Va", "V1", "3a", "33", "A", "E", "EW1", "AWx", "inx", "in1", "true1", "False_", "T", "F", "t", "tt", "é", "_é",
+            "細胞", "𝔸b", "a٣", "Ab_9_", "x", "xx", "var0",
+        ];
+        let mut n_id = 0u64;
+        let a = || T::Prop("a".into());
+        for n in names {
+            let mut shapes: Vec<T> = vec![];
+            if rp::parse_str(&T::Prop(n.into()).render(), true).ok() == Some(T::Prop(n.into())) {
+                let p = || T::Prop(n.into());
+                shapes.extend([p(), T::un(Un::Not, p()), T::un(Un::EX, p()), T::bin(Bi::And, p(), a()), T::bin(Bi::EU, a(), p()), T::bin(Bi::Iff, p(), p()), T::hy(Hy::Bind, "x", None, T::bin(Bi::And, p(), T::Var("x".into())))]);
+            }
+            if rp::parse_str(&T::hy(Hy::Bind, n, None, T::Var(n.into())).render(), true).ok() == Some(T::hy(Hy::Bind, n, None, T::Var(n.into()))) {
+                shapes.extend([
+                    T::hy(Hy::Bind, n, None, T::un(Un::AX, T::Var(n.into()))),
+                    T::hy(Hy::Exists, n, None, T::hy(Hy::Jump, n, None, T::bin(Bi::And, a(), T::Var(n.into())))),
+                    T::hy(Hy::Forall, n, Some("d"), T::bin(Bi::Or, T::Var(n.into()), a())),
+                ]);
+            }
+            if rp::parse_str(&T::Wild(n.into()).render(), true).ok() == Some(T::Wild(n.into())) {
+                shapes.extend([T::Wild(n.into()), T::un(Un::AG, T::Wild(n.into())), T::bin(Bi::AW, T::Wild(n.into()), a()), T::hy(Hy::Exists, "x", Some(n), T::hy(Hy::Jump, "x", None, T::Wild(n.into())))]);
+            }
+            for t in shapes {
+                n_id += 1;
+                let r = guarded(std::panic::AssertUnwindSafe(|| check_lib_tree(&t.to_lib())));
+                let what = match r {
+                    Ok(w) => w,
+                    Err(p) => Some(format!("panic: {p}")),
+                };
+                if let Some(w) = what {
+                    rep.violations.push(Violation { case: json!({"kind": "tree", "tree": t}), what: format!("tree {} (identifier shape {n:?}): {w}", t.render()), size: 10 + t.size() });
+                }
+            }
+        }
+        rep.evaluations += n_id;
+        rep.set("identifier_shape_trees", json!(n_id));
+    }
     // (iv) deterministic deep chains
     let mut deep = vec![];
     for depth in [50usize, 200] {
@@ -281,6 +323,6 @@ pub fn run(tier: &str) -> Result<Report, String> {
     rep.violations.extend(deep_bad);
     rep.sample(json!({"constructed": "(3{xx} in %3x%: (EXa AW (~{x})))", "round_trip": "parse_extended_formula(to_string(t)) == t, stored text/height checked at each of its 5 nodes"}));
     rep.sample(json!({"parsed": "V{x} in %d%: @{x}: a => %p%"}));
-    rep.rule = format!("every tree with 1..{s_max} nodes assembled with the public mk_* constructors over {} (jump with a domain excluded), every tree parse_extended_formula returns for token sequences of length <= {tlen} over {toks:?}, every tree produced by preprocessing closed formulae, every tree HctlTreeNode::new_random_boolean returns on a grid of (levels 1..5/7) x (seeds 0..199/999), and 46 chains of depth 50/200: stored text and height at every node vs an independent renderer, and print->parse round trip (extended parser; plain parser too on plain trees); distinct_nontrivial = number of distinct constructed trees with at least one operator", alphabet().describe());
+    rep.rule = format!("every tree with 1..{s_max} nodes assembled with the public mk_* constructors over {} (jump with a domain excluded), every tree parse_extended_formula returns for token sequences of length <= {tlen} over {toks:?}, every tree produced by preprocessing closed formulae, every tree of an identifier-shape family (37 names - leading / only underscores, digits first, operator and constant look-alikes, non-ASCII - in proposition, variable, wild-card and domain position), every tree HctlTreeNode::new_random_boolean returns on a grid of (levels 1..5/7) x (seeds 0..199/999), and 46 chains of depth 50/200: stored text and height at every node vs an independent renderer, and print->parse round trip (extended parser; plain parser too on plain trees); distinct_nontrivial = number of distinct constructed trees with at least one operator", alphabet().describe());
     Ok(rep)
 }
